@@ -420,9 +420,102 @@ Definition run_e2e (c : case) : bytes :=
   | _ => bad_case_output
   end.
 
+(* kind 1: a trace observed on the REAL tcpLineListener in front of the REAL ReloadableOrchestrator
+   (harness/c17_listener.go): the calls the listener made on its receiver - NewSink(number) / Accept /
+   Flush / Close per connection, in the order observed - are replayed on the listener LTS [lstep].  The
+   hidden events (abort signal, conn.Close() of the closer goroutine) are inserted where the observed
+   call needs them: a NewSink with a descriptor number that is still in use means its previous owner's
+   descriptor has been closed.  zargs = nthr :: maxn :: triples (code, t, x):
+     1 open t n | 2 accept t k | 3 flush t | 4 close t | 5,6,7: outcomes observed by the harness (ignored here;
+   the model predicts them). *)
+Record tstate := mkT { t_ls : lstate; t_ok : bool; t_reuse : bool; t_next : N }.
+
+Definition t_step (ts : tstate) (e : levent) : tstate :=
+  if t_ok ts then
+    match lstep true true (t_ls ts) e with
+    | Some ls' => mkT ls' true (t_reuse ts) (t_next ts)
+    | None => mkT (t_ls ts) false (t_reuse ts) (t_next ts)
+    end
+  else ts.
+
+Definition owner_of (ls : lstate) (n : nat) : option nat :=
+  let cands := filter (fun tc : nat * cthread =>
+                 (ct_num (snd tc) =? n) && lt_started (lthr ls (fst tc)) && lt_fd (lthr ls (fst tc)))
+               (enum 0 (st_thr (l_st ls))) in
+  match cands with (t, _) :: _ => Some t | [] => None end.
+
+Definition thr_parked (ls : lstate) (t : nat) : bool :=
+  match get_thr (l_st ls) t with
+  | Some c => match ct_pc c with PAccIn _ _ | PTickIn _ | PCloseIn _ | PNewIn _ => true | _ => false end
+  | None => false
+  end.
+
+Definition t_abort_if_running (ts : tstate) (t : nat) : tstate :=
+  let lt := lthr (t_ls ts) t in
+  if lt_started lt && negb (lt_left lt) then t_step ts (LAbort t) else ts.
+
+Definition t_call (ts : tstate) (code t x : nat) : tstate :=
+  match code with
+  | 1 =>
+    let ts1 :=
+      if nth x (l_fd (t_ls ts)) false then
+        match owner_of (t_ls ts) x with
+        | Some t' => t_step (t_abort_if_running ts t') (LFdClosed t')
+        | None => ts
+        end
+      else ts in
+    let reuse := negb (guard (l_st (t_ls ts1)) (ENewBegin t x)) in
+    let ts2 := mkT (t_ls ts1) (t_ok ts1) (t_reuse ts1 || reuse) (t_next ts1) in
+    let ts3 := t_step ts2 (LConnOpen t x) in
+    if thr_parked (t_ls ts3) t then t_step ts3 (LApi (ENewEnd t)) else ts3
+  | 2 =>
+    let rs := fresh_recs x (t_next ts) in
+    let ts1 := t_step (mkT (t_ls ts) (t_ok ts) (t_reuse ts) (t_next ts + N.of_nat x)%N) (LApi (EAccBegin t rs)) in
+    if thr_parked (t_ls ts1) t then t_step ts1 (LApi (EAccEnd t)) else ts1
+  | 3 =>
+    let ts1 := t_step ts (LApi (ETickBegin t)) in
+    if thr_parked (t_ls ts1) t then t_step ts1 (LApi (ETickEnd t)) else ts1
+  | 4 =>
+    let ts1 := t_step (t_abort_if_running ts t) (LApi (ECloseBegin t)) in
+    if thr_parked (t_ls ts1) t then t_step ts1 (LApi (ECloseEnd t)) else ts1
+  | _ => ts
+  end.
+
+Fixpoint t_calls (fuel : nat) (ts : tstate) (zs : list Z) : tstate :=
+  match fuel with
+  | O => ts
+  | S f =>
+    match zs with
+    | code :: t :: x :: zs' => t_calls f (t_call ts (zn code) (zn t) (zn x)) zs'
+    | _ => ts
+    end
+  end.
+
+Definition obs_outcome_tok (o : obs) : list bytes :=
+  match o with
+  | OHand _ _ _ _ _ => []
+  | ODeliver r s g al => [c_d :: c_r :: dec_of_N r ++ c_g :: nd g ++ bang al]
+  | OPanic t site _ => [c_x :: nd t ++ c_at :: nd site]
+  end.
+
+Definition run_listener_trace (c : case) : bytes :=
+  match c_zargs c with
+  | nthr :: maxn :: evs =>
+    let ts := t_calls (length evs) (mkT (linit (zn nthr) (zn maxn)) true false 1%N) evs in
+    let st := l_st (t_ls ts) in
+    verdict st ++ colon ::
+    join c_semi [
+      field 65%N (if t_ok ts then [c_a; c_c; c_c; 101%N; c_p; c_t] else [c_r; 101%N; 106%N; 101%N; c_c; c_t]);  (* A=accept|reject *)
+      field 85%N (if t_reuse ts then [c_r; 101%N; c_u; c_s; 101%N] else [c_u; c_n; c_i; 113%N; c_u; 101%N]);   (* U=reuse|unique *)
+      field 79%N (join comma (flat_map obs_outcome_tok (rev (st_log st))))                                       (* O= outcomes *)
+    ]
+  | _ => bad_case_output
+  end.
+
 Definition run_case_C17 (c : case) : bytes :=
   match c_kind c with
   | 0%N => run_scenario true c
+  | 1%N => run_listener_trace c
   | 2%N => run_e2e c
   | 9%N => run_scenario false c     (* the original NewSink (documentation of defect #13; never generated by the harness) *)
   | _ => bad_case_output
